@@ -648,6 +648,7 @@ func runC01(h *H) {
 	genFields(h)
 	// codec construction: marshaler detection, addressability, cache histories (c01codec.go)
 	genCodecChoice(h)
+	// the decode half of codec construction (c01codecdec.go)
 	genFieldsDec(h)
 	// type-directed differential against encoding/json (supervised: a crash is an observable)
 	N := 2500
@@ -670,6 +671,8 @@ func runC01(h *H) {
 	genMapKeyDec(h)
 	genOmitEmpty(h)
 	genInlined(h)
+	// typed values: encodeTyped against the Lean model / specification, and the typed round trip (c01typed.go)
+	genEncTyped(h)
 }
 
 // rawDoc: a VALID JSON text with insignificant white space, strings that end in escaped backslashes or quotes, HTML
